@@ -418,7 +418,19 @@ static void addtraps_case (vf_rng *r)
     int repr = 1; for (int i = 0; i < n; i++) if (!edges_representable (&tr[i])) repr = 0;
     if (FOCUS12) { int fx, fy; vf_count ("evaluations", (long)w * h);
         if (!images_equal (&A, &B, &fx, &fy)) vf_violation (repr ? "C12:add_trapezoids-vs-rasterize" : "C12:edge-x-not-representable:add_trapezoids-vs-rasterize", "pixel (%d,%d) differs", fx, fy); }
-    pixman_add_traps (ia, (int16_t)xo, (int16_t)yo, n, tp);      /* safety only */
+    /* pixman_add_traps: a list is the sum of its members (some of which cover no sample row: above or below the image, upside down,
+     * a sliver between two sample rows) */
+    for (int i = 0; i < n; i++) if (vf_chance (r, 1, 3)) { switch (vf_next (r) % 4) {
+        case 0: tp[i].top.y = fxr (r, -9, -5); tp[i].bot.y = tp[i].top.y + 65536; break;
+        case 1: tp[i].top.y = (pixman_fixed_t)((h + 3) * 65536); tp[i].bot.y = tp[i].top.y + 3 * 65536; break;
+        case 2: { pixman_fixed_t t = tp[i].top.y; tp[i].top.y = tp[i].bot.y + 1; tp[i].bot.y = t; break; }
+        default: tp[i].bot.y = tp[i].top.y + (pixman_fixed_t)vf_range (r, 0, 200); break; } }
+    memset (A.base, 0, A.bytes); memset (B.base, 0, B.bytes);
+    pixman_add_traps (ia, (int16_t)xo, (int16_t)yo, n, tp);
+    for (int i = 0; i < n; i++) pixman_add_traps (ib, (int16_t)xo, (int16_t)yo, 1, &tp[i]);
+    if (FOCUS12) { int fx, fy; vf_count ("evaluations", (long)w * h); vf_count ("add_traps_lists", 1);
+        if (!images_equal (&A, &B, &fx, &fy)) vf_violation ("C12:add_traps-list-vs-members", "pixel (%d,%d): adding a list of %d traps gives %x, adding its members one by one %x", fx, fy, n,
+                                                            vf_get_px (vf_buf_row (&A, fy), A.bpp, fx), vf_get_px (vf_buf_row (&B, fy), B.bpp, fx)); }
     pixman_image_unref (ia); pixman_image_unref (ib); vf_buf_free (&A); vf_buf_free (&B);
 }
 
